@@ -7,7 +7,7 @@ fail=0
 for n in $names; do
   prop=$(python3 -c "import json;print(json.load(open('seeded/$n/meta.json'))['property'])")
   if [ -n "$(git -C /repo status --porcelain --untracked-files=no)" ]; then echo "/repo dirty"; exit 3; fi
-  git -C /repo apply seeded/$n/patch.diff || { echo "$n: patch does not apply"; fail=1; continue; }
+  git -C /repo apply /verif/seeded/$n/patch.diff || { echo "$n: patch does not apply"; fail=1; continue; }
   out=$(./check $prop quick 2>&1); rc=$?
   git -C /repo checkout -- .
   sigs=$(echo "$out" | grep -c "^VIOLATION")
